@@ -217,6 +217,8 @@ class Interp:
 
     def fresh(self, kind, name='v'):
         self.fresh_n += 1
+        if getattr(self, '_in_body', False):
+            self.abstracted = getattr(self, 'abstracted', 0) + 1     # a value the real run would compute, not choose
         nm = '%s#%d' % (name, self.fresh_n)
         if kind in ('int', 'atom'):
             return SymVal(z3.Int(nm), kind)
@@ -763,6 +765,7 @@ class Interp:
         return snap
 
     def loop_cut_while(self, st, env, spec):
+        self.abstracted = getattr(self, 'abstracted', 0) + 1
         self.loop_entry_stack.append(self.entry_snapshot(env))
         try:
             return self._loop_cut_while(st, env, spec)
@@ -791,6 +794,7 @@ class Interp:
         self.exec_block(st.orelse, env)
 
     def loop_cut_for(self, st, env, spec, it):
+        self.abstracted = getattr(self, 'abstracted', 0) + 1
         self.loop_entry_stack.append(self.entry_snapshot(env))
         try:
             return self._loop_cut_for(st, env, spec, it)
@@ -1410,8 +1414,42 @@ class Interp:
         return self.branch(t)
 
     # attribute access -----------------------------------------------------
+    def constructor_default(self, obj, name):
+        """A pre-state object laid out field by field by a contract lacks attribute `name`, but the class's real
+        __init__ (current source) assigns self.<name>: the constructor's value is used when it does not depend on the
+        constructor's arguments (a fresh cache, counter, flag...), so that state ADDED to a class starts the way the
+        real constructor starts it.  Depends on arguments -> the contract's builder has to be told: Unsupported."""
+        init = obj.cls.lookup('__init__')
+        if not isinstance(init, FuncObj) or isinstance(init.node, ast.Lambda) or not init.node.args.args:
+            return _MISSING
+        selfname = init.node.args.args[0].arg
+        found = None
+        for n in ast.walk(init.node):
+            tgts = n.targets if isinstance(n, ast.Assign) else [n.target] if isinstance(n, ast.AnnAssign) and n.value is not None else []
+            for t in tgts:
+                if isinstance(t, ast.Attribute) and t.attr == name and isinstance(t.value, ast.Name) and t.value.id == selfname:
+                    found = n.value
+        if found is None:
+            return _MISSING
+        local = {a.arg for a in init.node.args.args + init.node.args.kwonlyargs}
+        for n in ast.walk(init.node):
+            if isinstance(n, ast.Name) and isinstance(n.ctx, ast.Store):
+                local.add(n.id)
+        if any(isinstance(n, ast.Name) and n.id in local for n in ast.walk(found)):
+            raise Unsupported("the contract's pre-state of %s lacks attribute %r, which the constructor sets from its arguments" % (obj.cls.name, name))
+        saved = self.spec_mode, self.old_mode
+        self.spec_mode, self.old_mode = 0, False
+        try:
+            v = self.eval(found, Env({}, None, init.module.ns, init))
+        finally:
+            self.spec_mode, self.old_mode = saved
+        obj.attrs[name] = v
+        return v
+
     def getattr_(self, obj, name):
         r = self.getattr_or_missing(obj, name)
+        if r is _MISSING and isinstance(obj, PyObj) and not name.startswith('__'):
+            r = self.constructor_default(obj, name)
         if r is _MISSING:
             self.raise_builtin('AttributeError', "'%s' object has no attribute '%s'" % (self.typename(obj), name))
         return r
@@ -2020,12 +2058,32 @@ class Interp:
                     b = False       # consequent undefined: the implication holds only where the antecedent is false
                 return mk(z3.Implies(a, z3.BoolVal(b) if isinstance(b, bool) else b), 'bool')
         fn = self.eval(node.func, env)
+        # round(e) / int(e) / float(e) do not depend on whether e is an int or a float of the same value, so a
+        # min/max directly inside may merge an int and a float operand into one real-valued term (no fork)
+        kf = getattr(self, 'kindfree', None)
+        if kf is None:
+            kf = self.kindfree = set()
+        fname = getattr(fn, 'name', None)
+        if len(node.args) == 1 and not node.keywords and (
+                (isinstance(fn, Builtin) and fname == 'round') or (isinstance(fn, BuiltinClass) and fname in ('int', 'float'))):
+            kf.add(id(node.args[0]))
+        merge_here = False
+        if id(node) in kf and isinstance(fn, Builtin) and fname in ('min', 'max'):
+            merge_here = True
+            for a in node.args:
+                kf.add(id(a))
         args = []
         for a in node.args:
             if isinstance(a, ast.Starred):
                 args.extend(self.iterate(self.eval(a.value, env)))
             else:
                 args.append(self.eval(a, env))
+        if merge_here:
+            self.minmax_merge = True
+            try:
+                return self.call(fn, args, {})
+            finally:
+                self.minmax_merge = False
         kwargs = {}
         for kw in node.keywords:
             if kw.arg is None:
